@@ -326,7 +326,18 @@ def record(payload: Tuple[Any, ...]) -> Dict[str, Any]:
         return {"op": op, "base": base, "broken_base": repr(e)[:500], "states": [], "steps": [], "read_events": 0,
                 "torn_built": 0}
     rec = CrashRecorder(root, os.path.join(work, "s"))
-    _run_recorded(rec, thunk)
+    try:
+        _run_recorded(rec, thunk)
+    except HarnessError:
+        raise
+    except Exception as e:  # noqa - no fault is injected here: the operation itself must succeed
+        # on a base left behind by a dead writer (left_*, or a crash state of an earlier operation) this is the
+        # statement's "the reopened table accepts new commits"; elsewhere the un-crashed library failed
+        rec.discard()
+        shutil.rmtree(work, ignore_errors=True)
+        ENV.set_actor("main")
+        return {"op": op, "base": base, "broken_base": f"operation raised {e!r}"[:500], "states": [], "steps": [],
+                "read_events": 0, "torn_built": 0, "after_crash": bool(src) or base.startswith("left_")}
     post = _logical(root, op == "create")
     kind = "create" if op == "create" else ("gc" if op == "gc" else "commit")
     if kind == "commit" and (not rec.has_flip or pre["md"] == post["md"]):
@@ -654,8 +665,12 @@ NEST_BATCH = 64
 def _account(rep: Report, r: Dict[str, Any]) -> bool:
     if "broken_base" in r:
         # not a crash state at all: the un-crashed library cannot build / read the table the operation starts from
-        rep.violation({"op": r["op"], "base": r["base"], "phase": "no_crash", "after_event": "base_build",
-                       "problem": "uncrashed_base_table_unusable"}, {"error": r["broken_base"]})
+        if r.get("after_crash"):
+            rep.violation({"op": r["op"], "base": r["base"].split("@")[0], "phase": "after_crash", "after_event": "reopen",
+                           "problem": "table_left_by_a_dead_writer_refuses_the_operation"}, {"error": r["broken_base"]})
+        else:
+            rep.violation({"op": r["op"], "base": r["base"], "phase": "no_crash", "after_event": "base_build",
+                           "problem": "uncrashed_base_table_unusable"}, {"error": r["broken_base"]})
         rep.caps.append(f"{r['op']}/{r['base']}: base table could not be built, no crash state enumerated")
         return False
     nested = "@" in r["base"]
